@@ -4,6 +4,7 @@
 From Coq Require Import List Arith Bool NArith ZArith String.
 From AV Require Import model.C06_model proofs.C06_paging proofs.C06_index proofs.C06_sweep proofs.C06_small.
 From AV Require Import model.C06_unix proofs.C06_unix_proofs.
+From AV Require Import model.C05_model model.C06_mounts proofs.C06_mounts_proofs.
 Import ListNotations.
 
 (* ---- (a) paging ---------------------------------------------------------------------------------- *)
@@ -136,6 +137,32 @@ Theorem C06_unix_forgetful_variant_refuted :
   get_index body <> None /\ snd (unix_index "" w_forget) = false /\ get_index (unix_response "" w_forget) = None.
 Proof. exact forgetful_variant_refuted. Qed.
 Print Assumptions C06_unix_forgetful_variant_refuted.
+
+(* ---- (d') which indexes a sweep fetches (model/C06_mounts.v; cleanupMounts = model/C05_model.v cleanup) -------- *)
+
+(* after cleanupMounts, GetCurrentState asks one mount per device (itself for a blank device id, any mount with the
+   same id otherwise - the choice is map order): then EVERY mount advertised by the keepstores is covered by a fetched
+   index, including the read-only mounts cleanupMounts dropped (their device is fetched through a read-write mount) *)
+Theorem C06_one_index_per_device_covers_every_mount : forall raw idx,
+  (forall s, In s (cleanup raw) -> exists i, In i (cleanup raw) /\ In (mid i) idx /\ (i = s \/ (dev s <> 0 /\ dev i = dev s))) ->
+  all_covered raw idx = true.
+Proof. exact one_index_per_device_covers_all. Qed.
+Print Assumptions C06_one_index_per_device_covers_every_mount.
+
+(* the boolean judged on the index requests a successful sweep made *)
+Theorem C06_all_covered_b_reflects : forall raw idx,
+  all_covered raw idx = true <->
+  forall m, In m raw -> exists i, In i raw /\ In (mid i) idx /\ (mid i = mid m \/ (dev m <> 0 /\ dev i = dev m)).
+Proof. exact all_covered_reflects. Qed.
+Print Assumptions C06_all_covered_b_reflects.
+
+(* regression witness: cleanupMounts without the `DeviceID != ""` guard drops the read-only mount with a blank
+   device id next to a read-write one; its index is never requested *)
+Theorem C06_blank_device_guard_variant_refuted :
+  map mid (cleanup_noguard w_blank) = [1] /\ all_covered w_blank (map mid (cleanup_noguard w_blank)) = false /\
+  index_requests w_blank = [1; 2] /\ all_covered w_blank (index_requests w_blank) = true.
+Proof. exact blank_guard_variant_refuted. Qed.
+Print Assumptions C06_blank_device_guard_variant_refuted.
 
 (* ---- (d) the sweep --------------------------------------------------------------------------------- *)
 
